@@ -438,8 +438,8 @@ func (w *_nodeRepr) Length() int64 {
 	case schema.UnionRepresentation_Keyed:
 		return (*_node)(w).Length()
 	case schema.UnionRepresentation_Kinded:
-		w = w.asKinded(stg, w.Kind())
-		return (*_node)(w).Length()
+		// the length of the member's representation, not of its type-level view
+		return w.asKinded(stg, w.Kind()).Length()
 	default:
 		return (*_node)(w).Length()
 	}
